@@ -1,4 +1,5 @@
 use c08::*;
+use proptest::strategy::Strategy;
 use vcore::{Ctx, SplitMix};
 
 /// hand-picked short inputs with their scripts (≤ 12 bytes): all chunkings are enumerated
@@ -104,7 +105,7 @@ fn main() {
         ctx.exhaustive(&name, "reader-case", &domain, true, all_chunkings(&input, &script).collect::<Vec<_>>(), run_case);
     }
 
-    ctx.prop("generated", "reader-case", ctx.n(6_000, 200_000), case(10), run_case);
+    ctx.prop_split("generated", "reader-case", ctx.n(6_000, 200_000), ctx.parts(), case(10).boxed(), run_case);
     ctx.prop("generated-short", "reader-case", ctx.n(6_000, 100_000), case(3), run_case);
     if buf >= 1024 && buf <= (1 << 22) {
         ctx.prop_cfg("long-inputs-at-buffer-boundary", "reader-case", ctx.n(150, 3_000), 200, long_case(buf), run_case);
